@@ -1,3 +1,1126 @@
-//! C28 — not built yet.
-pub const BUILT: bool = false;
-pub fn run(_rep: &mut vx::Report) {}
+//! C28 — outlines and destinations written are navigable as authored.
+//!
+//! Space (all enumerated, nothing sampled):
+//!  * `forest`: every ordered forest with ≤ N items (N = 5 quick / 7 thorough; 6 is the
+//!    DESIGN bound: 197 shapes incl. the empty one) × every open/closed assignment ×
+//!    destination scheme × title scheme × authoring route (OutlineItem/OutlineTree directly
+//!    or OutlineBuilder push/add/pop) × named-destination set present or not.
+//!  * `dests`: forests with ≤ 2 items × every per-item destination from the menu
+//!    (3 pages × {page number, page reference} × 11 fit forms, or no destination).
+//!  * `names`: every ordered selection of ≤ 2 (quick) / ≤ 3 (thorough) names out of 6
+//!    (incl. `(`, a space and a non-ASCII character) × every destination of a reduced menu.
+//!  * `configs`: forests with ≤ 4 items × open/closed × the 8 unencrypted writer configurations.
+//! Oracle (refpdf on the written bytes; ISO 32000-1 §12.3.3 Tables 152/153, §12.3.2.2
+//! Table 151, §7.9.6): item objects are identified by their (unique) titles, independently of
+//! the links; then /Parent /Prev /Next /First /Last of every item and /First /Last of the root
+//! must be indirect references forming exactly the authored forest; /Count is the number of
+//! descendants visible when the item is open, negated for a closed item, absent (or 0) for a
+//! leaf; the root /Count is the total number of visible items; every /Dest (and every name in
+//! /Names /Dests or the catalog /Dests dictionary) is `[page-object-reference /Kind args…]`
+//! with the authored page, kind and arguments.
+use oxidize_pdf::objects::ObjectId;
+use oxidize_pdf::structure::{
+    Destination, NamedDestinations, OutlineBuilder, OutlineItem, OutlineTree, PageDestination,
+};
+use oxidize_pdf::writer::{PdfWriter, WriterConfig};
+use oxidize_pdf::{Document, Page, Point, Rectangle};
+use refpdf::file::PdfFile;
+use refpdf::syntax::Obj;
+use serde_json::json;
+use std::collections::BTreeMap;
+use std::sync::OnceLock;
+use vx::{Ctx, Explore, Report};
+
+pub const BUILT: bool = true;
+
+const NPAGES: usize = 3;
+
+// ------------------------------------------------------------------ authored model
+
+/// Fit forms of Table 151. `None` argument = PDF null.
+#[derive(Clone, Copy, Debug, PartialEq, Hash)]
+enum Fit {
+    Xyz(Option<i32>, Option<i32>, Option<i32>), // values in 1/2 units so that .5 is representable
+    Fit,
+    FitH(Option<i32>),
+    FitV(Option<i32>),
+    FitR(i32, i32, i32, i32),
+    FitB,
+    FitBH(Option<i32>),
+    FitBV(Option<i32>),
+}
+fn half(v: i32) -> f64 {
+    v as f64 / 2.0
+}
+const FIT_MENU: [Fit; 11] = [
+    Fit::Fit,
+    Fit::Xyz(None, None, None),
+    Fit::Xyz(Some(20), Some(1401), Some(3)), // 10, 700.5, 1.5
+    Fit::Xyz(Some(0), None, Some(0)),
+    Fit::FitH(Some(1600)),
+    Fit::FitH(None),
+    Fit::FitV(Some(0)),
+    Fit::FitR(20, 40, 400, 600),
+    Fit::FitB,
+    Fit::FitBH(Some(-10)),
+    Fit::FitBV(None),
+];
+
+#[derive(Clone, Copy, Debug, PartialEq, Hash)]
+struct DestSpec {
+    page: usize,
+    by_ref: bool,
+    fit: Fit,
+}
+
+impl DestSpec {
+    fn to_lib(&self, page_ids: &[u32]) -> Destination {
+        let p = if self.by_ref {
+            PageDestination::PageRef(ObjectId::new(page_ids[self.page], 0))
+        } else {
+            PageDestination::PageNumber(self.page as u32)
+        };
+        let o = |v: Option<i32>| v.map(half);
+        match self.fit {
+            Fit::Xyz(l, t, z) => Destination::xyz(p, o(l), o(t), o(z)),
+            Fit::Fit => Destination::fit(p),
+            Fit::FitH(t) => Destination::fit_h(p, o(t)),
+            Fit::FitV(l) => Destination::fit_v(p, o(l)),
+            Fit::FitR(a, b, c, d) => Destination::fit_r(
+                p,
+                Rectangle::new(Point::new(half(a), half(b)), Point::new(half(c), half(d))),
+            ),
+            Fit::FitB => Destination::fit_b(p),
+            Fit::FitBH(t) => Destination::fit_bh(p, o(t)),
+            Fit::FitBV(l) => Destination::fit_bv(p, o(l)),
+        }
+    }
+    /// (kind name, arguments) of Table 151.
+    fn expected_tail(&self) -> (&'static str, Vec<Option<f64>>) {
+        let o = |v: Option<i32>| v.map(half);
+        match self.fit {
+            Fit::Xyz(l, t, z) => ("XYZ", vec![o(l), o(t), o(z)]),
+            Fit::Fit => ("Fit", vec![]),
+            Fit::FitH(t) => ("FitH", vec![o(t)]),
+            Fit::FitV(l) => ("FitV", vec![o(l)]),
+            Fit::FitR(a, b, c, d) => ("FitR", vec![Some(half(a)), Some(half(b)), Some(half(c)), Some(half(d))]),
+            Fit::FitB => ("FitB", vec![]),
+            Fit::FitBH(t) => ("FitBH", vec![o(t)]),
+            Fit::FitBV(l) => ("FitBV", vec![o(l)]),
+        }
+    }
+}
+
+#[derive(Clone, Debug)]
+struct Node {
+    parent: Option<usize>,
+    children: Vec<usize>,
+    open: bool,
+    title: String,
+    dest: Option<DestSpec>,
+}
+
+/// Forest in pre-order (= document order): node i's parent has a smaller index.
+#[derive(Clone, Debug)]
+struct Forest {
+    nodes: Vec<Node>,
+    roots: Vec<usize>,
+}
+
+impl Forest {
+    fn from_depths(depths: &[usize]) -> Forest {
+        let mut nodes: Vec<Node> = Vec::new();
+        let mut roots = Vec::new();
+        let mut stack: Vec<usize> = Vec::new(); // stack[d] = last node at depth d
+        for (i, &d) in depths.iter().enumerate() {
+            stack.truncate(d);
+            let parent = stack.last().copied();
+            nodes.push(Node { parent, children: vec![], open: true, title: String::new(), dest: None });
+            match parent {
+                Some(p) => nodes[p].children.push(i),
+                None => roots.push(i),
+            }
+            stack.push(i);
+        }
+        Forest { nodes, roots }
+    }
+    fn siblings(&self, i: usize) -> &[usize] {
+        match self.nodes[i].parent {
+            Some(p) => &self.nodes[p].children,
+            None => &self.roots,
+        }
+    }
+    /// Descendants that appear when node i is (re)opened — Table 153.
+    fn vis(&self, i: usize) -> i64 {
+        self.nodes[i]
+            .children
+            .iter()
+            .map(|&c| 1 + if self.nodes[c].open { self.vis(c) } else { 0 })
+            .sum()
+    }
+    fn all_desc(&self, i: usize) -> i64 {
+        self.nodes[i].children.iter().map(|&c| 1 + self.all_desc(c)).sum()
+    }
+    fn root_visible(&self) -> i64 {
+        self.roots.iter().map(|&r| 1 + if self.nodes[r].open { self.vis(r) } else { 0 }).sum()
+    }
+    fn any_open_with_children(&self) -> bool {
+        self.nodes.iter().any(|n| n.open && !n.children.is_empty())
+    }
+    fn describe(&self) -> String {
+        fn rec(f: &Forest, i: usize, out: &mut String) {
+            let n = &f.nodes[i];
+            out.push_str(&format!("{}{}", i, if n.open { "" } else { "-" }));
+            if !n.children.is_empty() {
+                out.push('[');
+                for (k, &c) in n.children.iter().enumerate() {
+                    if k > 0 {
+                        out.push(' ');
+                    }
+                    rec(f, c, out);
+                }
+                out.push(']');
+            }
+        }
+        let mut s = String::new();
+        for (k, &r) in self.roots.iter().enumerate() {
+            if k > 0 {
+                s.push(' ');
+            }
+            rec(self, r, &mut s);
+        }
+        if s.is_empty() {
+            s.push_str("(empty)");
+        }
+        s
+    }
+}
+
+const TITLE_ALPHA: [&str; 6] = ["A", "(", ")", "\\", "é", "€"];
+
+fn title_for(scheme: usize, i: usize) -> String {
+    match scheme {
+        0 => format!("n{i}"),
+        // every alphabet element appears within the first six items; the index keeps titles unique
+        _ => format!("{}{}{}", TITLE_ALPHA[i % TITLE_ALPHA.len()], i, TITLE_ALPHA[(i + 2) % TITLE_ALPHA.len()]),
+    }
+}
+
+fn dest_for(scheme: usize, i: usize) -> Option<DestSpec> {
+    match scheme {
+        // 0: every item, page by number, rotating pages, /Fit
+        0 => Some(DestSpec { page: i % NPAGES, by_ref: false, fit: Fit::Fit }),
+        // 1: rotating fit forms, pages in reverse, by number
+        1 => Some(DestSpec { page: (NPAGES - 1) - (i % NPAGES), by_ref: false, fit: FIT_MENU[i % FIT_MENU.len()] }),
+        // 2: page references (two-pass authoring), every second item without destination
+        2 => {
+            if i % 2 == 1 {
+                None
+            } else {
+                Some(DestSpec { page: (i / 2) % NPAGES, by_ref: true, fit: FIT_MENU[(i + 3) % FIT_MENU.len()] })
+            }
+        }
+        // 3: no destinations at all
+        _ => None,
+    }
+}
+
+fn mk_item(n: &Node, page_ids: &[u32]) -> OutlineItem {
+    let mut it = OutlineItem::new(n.title.clone());
+    if let Some(d) = &n.dest {
+        it = it.with_destination(d.to_lib(page_ids));
+    }
+    if !n.open {
+        it = it.closed();
+    }
+    it
+}
+
+fn build_direct(f: &Forest, page_ids: &[u32]) -> OutlineTree {
+    fn rec(f: &Forest, i: usize, page_ids: &[u32]) -> OutlineItem {
+        let mut it = mk_item(&f.nodes[i], page_ids);
+        for &c in &f.nodes[i].children {
+            it.add_child(rec(f, c, page_ids));
+        }
+        it
+    }
+    let mut t = OutlineTree::new();
+    for &r in &f.roots {
+        t.add_item(rec(f, r, page_ids));
+    }
+    t
+}
+
+fn build_with_builder(f: &Forest, page_ids: &[u32]) -> OutlineTree {
+    fn rec(b: &mut OutlineBuilder, f: &Forest, i: usize, page_ids: &[u32]) {
+        let it = mk_item(&f.nodes[i], page_ids);
+        if f.nodes[i].children.is_empty() {
+            b.add_item(it);
+        } else {
+            b.push_item(it);
+            for &c in &f.nodes[i].children {
+                rec(b, f, c, page_ids);
+            }
+            b.pop_item();
+        }
+    }
+    let mut b = OutlineBuilder::new();
+    for &r in &f.roots {
+        rec(&mut b, f, r, page_ids);
+    }
+    b.build()
+}
+
+const NAME_MENU: [&str; 6] = ["a", "Z", "(", "a b", "é", "chapter.10"];
+
+fn config_of(i: usize) -> WriterConfig {
+    WriterConfig {
+        use_xref_streams: i & 1 != 0,
+        use_object_streams: i & 2 != 0,
+        pdf_version: if i & 3 != 0 { "1.5" } else { "1.7" }.to_string(),
+        compress_streams: i & 4 == 0,
+        incremental_update: false,
+    }
+}
+fn config_name(i: usize) -> String {
+    format!(
+        "xref={} objstm={} compress={}",
+        if i & 1 != 0 { "stream" } else { "table" },
+        i & 2 != 0,
+        i & 4 == 0
+    )
+}
+
+/// Object numbers of the page objects of an outline-less document with NPAGES pages: what a
+/// caller of `PageDestination::PageRef` can learn from a first writing pass.
+fn first_pass_page_ids() -> &'static Vec<u32> {
+    static IDS: OnceLock<Vec<u32>> = OnceLock::new();
+    IDS.get_or_init(|| {
+        let mut doc = Document::new();
+        for _ in 0..NPAGES {
+            doc.add_page(Page::a4());
+        }
+        let bytes = doc.to_bytes().expect("first pass write");
+        let f = PdfFile::parse(&bytes).expect("first pass parse");
+        f.pages().expect("first pass pages").iter().map(|p| p.obj.expect("indirect page")).collect()
+    })
+}
+
+fn write_doc(tree: Option<OutlineTree>, named: Option<NamedDestinations>, cfg: Option<usize>) -> Result<Vec<u8>, String> {
+    let r = vx::guard(move || {
+        let mut doc = Document::new();
+        for _ in 0..NPAGES {
+            doc.add_page(Page::a4());
+        }
+        if let Some(t) = tree {
+            doc.set_outline(t);
+        }
+        if let Some(n) = named {
+            doc.set_named_destinations(n);
+        }
+        match cfg {
+            None => doc.to_bytes().map_err(|e| e.to_string()),
+            Some(i) => {
+                let mut buf = Vec::new();
+                let mut w = PdfWriter::with_config(&mut buf, config_of(i));
+                w.write_document(&mut doc).map_err(|e| e.to_string())?;
+                drop(w);
+                Ok(buf)
+            }
+        }
+    });
+    match r {
+        Ok(Ok(b)) => Ok(b),
+        Ok(Err(e)) => Err(format!("error: {e}")),
+        Err(p) => Err(format!("panic: {p}")),
+    }
+}
+
+// ------------------------------------------------------------------ reading back
+
+#[derive(Clone, Debug, PartialEq, Eq, Hash)]
+enum Tgt {
+    Absent,
+    Root,
+    Node(usize),
+    /// an indirect reference to something that is neither the root nor an item
+    Stray(u32),
+    /// not an indirect reference at all
+    Direct(String),
+}
+
+const FIELDS: [&str; 5] = ["Parent", "Prev", "Next", "First", "Last"];
+
+struct ReadBack {
+    page_objs: Vec<u32>,
+    /// per authored node: object number
+    item_obj: Vec<u32>,
+    root_obj: u32,
+    /// per node, the five link fields; then the root's First/Last
+    links: Vec<[Tgt; 5]>,
+    root_links: [Tgt; 2],
+    title_defect: Vec<Option<&'static str>>,
+}
+
+fn tgt_of(o: Option<&Obj>, root_obj: u32, obj_to_node: &BTreeMap<u32, usize>) -> Tgt {
+    match o {
+        None => Tgt::Absent,
+        Some(Obj::Ref(n, 0)) if *n == root_obj => Tgt::Root,
+        Some(Obj::Ref(n, 0)) => match obj_to_node.get(n) {
+            Some(&i) => Tgt::Node(i),
+            None => Tgt::Stray(*n),
+        },
+        Some(Obj::Ref(n, _)) => Tgt::Stray(*n),
+        Some(other) => Tgt::Direct(other.type_name().to_string()),
+    }
+}
+
+/// Why a title is or is not the authored one.
+fn title_status(bytes: &[u8], want: &str) -> Result<Option<&'static str>, ()> {
+    if refpdf::textstr::decode_text_string(bytes) == want {
+        return Ok(None);
+    }
+    if bytes == want.as_bytes() {
+        // the known defect of the string serializer: raw UTF-8 without a byte-order mark
+        return Ok(Some("C28/title-written-as-raw-utf8-not-a-text-string"));
+    }
+    Err(())
+}
+
+fn read_back(c: &mut Ctx, f: &Forest, file: &PdfFile, ctx: &str) -> Option<ReadBack> {
+    let pages = match file.pages() {
+        Ok(p) => p,
+        Err(e) => {
+            c.fail("C28/page-tree-unreadable", format!("{ctx}: {e}"));
+            return None;
+        }
+    };
+    let page_objs: Vec<u32> = pages.iter().filter_map(|p| p.obj).collect();
+    if page_objs.len() != NPAGES {
+        c.fail("C28/page-tree-wrong", format!("{ctx}: {} indirect pages, expected {NPAGES}", page_objs.len()));
+        return None;
+    }
+    let cat = match file.catalog() {
+        Ok(c) => c,
+        Err(e) => {
+            c.fail("C28/catalog-unreadable", format!("{ctx}: {e}"));
+            return None;
+        }
+    };
+    let n = f.nodes.len();
+    let root_obj = match cat.dict_get("Outlines") {
+        None => {
+            if n > 0 {
+                c.fail("C28/outlines-entry-missing", format!("{ctx}: catalog has no /Outlines"));
+            }
+            return None;
+        }
+        Some(Obj::Ref(r, 0)) => *r,
+        Some(other) => {
+            c.fail("C28/outlines-not-indirect", format!("{ctx}: /Outlines is {other:?} (Table 28: indirect reference)"));
+            return None;
+        }
+    };
+    let root = file.get(root_obj);
+    if root.as_dict().is_none() {
+        c.fail("C28/outlines-root-not-a-dictionary", format!("{ctx}: object {root_obj} is {}", root.type_name()));
+        return None;
+    }
+    // item objects, found without following any link: dictionaries with /Title and /Parent
+    let mut found: Vec<(u32, Vec<u8>)> = Vec::new();
+    for num in file.live_objects() {
+        let o = file.get(num);
+        if let Some(d) = o.as_dict() {
+            if let (Some(t), Some(_)) = (d.get("Title"), d.get("Parent")) {
+                match file.resolve(t) {
+                    Obj::Str(s) => found.push((num, s)),
+                    other => {
+                        c.fail("C28/title-not-a-string", format!("{ctx}: object {num} /Title is {}", other.type_name()));
+                        return None;
+                    }
+                }
+            }
+        }
+    }
+    let mut item_obj = vec![0u32; n];
+    let mut title_defect = vec![None; n];
+    let mut used = vec![false; found.len()];
+    for (i, node) in f.nodes.iter().enumerate() {
+        let mut hits = Vec::new();
+        for (k, (num, bytes)) in found.iter().enumerate() {
+            if let Ok(st) = title_status(bytes, &node.title) {
+                hits.push((k, *num, st));
+            }
+        }
+        if hits.len() != 1 {
+            c.fail(
+                "C28/item-object-missing-or-duplicated",
+                format!(
+                    "{ctx}: authored item {i} title {:?} matches {} written objects; written titles: {:?}",
+                    node.title,
+                    hits.len(),
+                    found.iter().map(|(n, b)| format!("{n}:{}", vx::show_bytes(b, 24))).collect::<Vec<_>>()
+                ),
+            );
+            return None;
+        }
+        used[hits[0].0] = true;
+        item_obj[i] = hits[0].1;
+        title_defect[i] = hits[0].2;
+    }
+    if used.iter().any(|u| !u) {
+        c.fail(
+            "C28/extra-item-objects",
+            format!("{ctx}: {} outline item objects written for {n} authored items", found.len()),
+        );
+        return None;
+    }
+    let obj_to_node: BTreeMap<u32, usize> = item_obj.iter().enumerate().map(|(i, &o)| (o, i)).collect();
+    let mut links = Vec::with_capacity(n);
+    for i in 0..n {
+        let o = file.get(item_obj[i]);
+        let d = o.as_dict().unwrap();
+        let l: [Tgt; 5] = std::array::from_fn(|k| tgt_of(d.get(FIELDS[k]), root_obj, &obj_to_node));
+        links.push(l);
+    }
+    let rd = root.as_dict().unwrap();
+    let root_links = [tgt_of(rd.get("First"), root_obj, &obj_to_node), tgt_of(rd.get("Last"), root_obj, &obj_to_node)];
+    Some(ReadBack { page_objs, item_obj, root_obj, links, root_links, title_defect })
+}
+
+fn opt(o: Option<usize>) -> Tgt {
+    o.map(Tgt::Node).unwrap_or(Tgt::Absent)
+}
+
+/// The authored link structure.
+fn correct_links(f: &Forest) -> (Vec<[Tgt; 5]>, [Tgt; 2]) {
+    let mut v = Vec::new();
+    for (i, n) in f.nodes.iter().enumerate() {
+        let sib = f.siblings(i);
+        let k = sib.iter().position(|&x| x == i).unwrap();
+        v.push([
+            n.parent.map(Tgt::Node).unwrap_or(Tgt::Root),
+            opt(if k > 0 { Some(sib[k - 1]) } else { None }),
+            opt(sib.get(k + 1).copied()),
+            opt(n.children.first().copied()),
+            opt(n.children.last().copied()),
+        ]);
+    }
+    (v, [opt(f.roots.first().copied()), opt(f.roots.last().copied())])
+}
+
+/// What `write_outline_tree`/`write_outline_item` are known to produce (KF-C28-1): object ids
+/// are reserved as one flat run and handed out in pre-order, but /Prev, /Next and /Last are
+/// computed as `ids[first_idx + k ± 1]` / `ids[first_idx + len - 1]` as if the siblings were
+/// adjacent in that run. In pre-order numbering "ids[j]" simply is node j.
+fn flat_index_links(f: &Forest) -> (Vec<[Tgt; 5]>, [Tgt; 2]) {
+    let mut v = Vec::new();
+    for (i, n) in f.nodes.iter().enumerate() {
+        let sib = f.siblings(i);
+        let k = sib.iter().position(|&x| x == i).unwrap();
+        let first_idx = sib[0];
+        v.push([
+            n.parent.map(Tgt::Node).unwrap_or(Tgt::Root),
+            opt(if k > 0 { Some(first_idx + k - 1) } else { None }),
+            opt(if k + 1 < sib.len() { Some(first_idx + k + 1) } else { None }),
+            opt(n.children.first().copied()),
+            opt(n.children.first().map(|&fc| fc + n.children.len() - 1)),
+        ]);
+    }
+    let r = [opt(f.roots.first().copied()), opt(f.roots.first().map(|&r0| r0 + f.roots.len() - 1))];
+    (v, r)
+}
+
+/// Order in which a reader walking /First and /Next meets the items (cut at 3n steps).
+fn reader_order(rb: &ReadBack, n: usize) -> Vec<String> {
+    let mut out = Vec::new();
+    fn walk(rb: &ReadBack, start: &Tgt, out: &mut Vec<String>, budget: &mut usize) {
+        let mut cur = start.clone();
+        loop {
+            if *budget == 0 {
+                out.push("…".into());
+                return;
+            }
+            *budget -= 1;
+            match cur {
+                Tgt::Node(i) => {
+                    out.push(i.to_string());
+                    if rb.links[i][3] != Tgt::Absent {
+                        out.push("[".into());
+                        let first = rb.links[i][3].clone();
+                        walk(rb, &first, out, budget);
+                        out.push("]".into());
+                    }
+                    cur = rb.links[i][2].clone();
+                }
+                Tgt::Absent => return,
+                other => {
+                    out.push(format!("{other:?}"));
+                    return;
+                }
+            }
+        }
+    }
+    let mut budget = 3 * n + 3;
+    walk(rb, &rb.root_links[0], &mut out, &mut budget);
+    out
+}
+
+fn check_links(c: &mut Ctx, f: &Forest, rb: &ReadBack, ctx: &str) -> u64 {
+    let (want, want_root) = correct_links(f);
+    if rb.links == want && rb.root_links == want_root {
+        return 1;
+    }
+    let (flat, flat_root) = flat_index_links(f);
+    let order = reader_order(rb, f.nodes.len()).join(" ");
+    if rb.links == flat && rb.root_links == flat_root {
+        // exact signature of the known defect; anything else gets its own key below
+        let (i, k) = (0..f.nodes.len())
+            .flat_map(|i| (0..5).map(move |k| (i, k)))
+            .find(|&(i, k)| rb.links[i][k] != want[i][k])
+            .unwrap_or((usize::MAX, 0));
+        let first = if i == usize::MAX {
+            format!("root /Last = {:?}, authored {:?}", rb.root_links[1], want_root[1])
+        } else {
+            format!("item {i} /{} = {:?}, authored {:?}", FIELDS[k], rb.links[i][k], want[i][k])
+        };
+        c.fail(
+            "C28/sibling-links-indexed-flat-while-ids-are-handed-out-depth-first",
+            format!("{ctx}: {first}; a reader walking /First,/Next sees: {order}"),
+        );
+        return 2;
+    }
+    for k in 0..2 {
+        if rb.root_links[k] != want_root[k] {
+            c.fail(
+                format!("C28/root-{}-wrong", ["first", "last"][k]),
+                format!("{ctx}: root /{} = {:?}, authored {:?}; reader order: {order}", ["First", "Last"][k], rb.root_links[k], want_root[k]),
+            );
+        }
+    }
+    for i in 0..f.nodes.len() {
+        for k in 0..5 {
+            if rb.links[i][k] != want[i][k] {
+                let kind = match &rb.links[i][k] {
+                    Tgt::Direct(_) => "not-an-indirect-reference",
+                    Tgt::Stray(_) => "points-outside-the-outline",
+                    Tgt::Absent => "missing",
+                    _ if want[i][k] == Tgt::Absent => "present-but-should-be-absent",
+                    _ => "wrong",
+                };
+                c.fail(
+                    format!("C28/{}-{kind}", FIELDS[k].to_lowercase()),
+                    format!(
+                        "{ctx}: item {i} (object {}) /{} = {:?}, authored {:?}; reader order: {order}",
+                        rb.item_obj[i], FIELDS[k], rb.links[i][k], want[i][k]
+                    ),
+                );
+            }
+        }
+    }
+    3
+}
+
+fn check_counts(c: &mut Ctx, f: &Forest, rb: &ReadBack, file: &PdfFile, ctx: &str) -> u64 {
+    let mut oh = 0u64;
+    for (i, n) in f.nodes.iter().enumerate() {
+        let o = file.get(rb.item_obj[i]);
+        let got = o.dict_get("Count").map(|x| file.resolve(x));
+        let got_i = got.as_ref().and_then(|g| g.as_int());
+        if got.is_some() && got_i.is_none() {
+            c.fail("C28/count-not-an-integer", format!("{ctx}: item {i} /Count = {got:?}"));
+            continue;
+        }
+        if n.children.is_empty() {
+            if !matches!(got_i, None | Some(0)) {
+                c.fail("C28/count-on-leaf", format!("{ctx}: leaf item {i} has /Count {got_i:?}"));
+            }
+            continue;
+        }
+        let vis = f.vis(i);
+        let want = if n.open { vis } else { -vis };
+        oh = vx::hmix(oh, vx::h64(&(i, got_i == Some(want))));
+        if got_i == Some(want) {
+            continue;
+        }
+        let all = f.all_desc(i);
+        let key = match got_i {
+            None => "C28/count-missing-on-item-with-children",
+            // known defect KF-C28-2: a closed item counts all descendants, also those that stay
+            // hidden inside closed children when it is reopened
+            Some(g) if !n.open && g == -all && all != vis => "C28/closed-item-count-includes-descendants-hidden-in-closed-children",
+            Some(g) if g == -want => "C28/count-sign-wrong",
+            Some(_) => "C28/count-wrong",
+        };
+        c.fail(
+            key,
+            format!(
+                "{ctx}: item {i} ({}) /Count = {got_i:?}, Table 153 gives {want} ({vis} descendants appear when it is open; {all} descendants in total)",
+                if n.open { "open" } else { "closed" }
+            ),
+        );
+    }
+    // root
+    let root = file.get(rb.root_obj);
+    let got = root.dict_get("Count").map(|x| file.resolve(x));
+    let got_i = got.as_ref().and_then(|g| g.as_int());
+    let want = f.root_visible();
+    let ok = match (&got, got_i) {
+        (None, _) => !f.any_open_with_children(), // Table 152: omitted when there are no open items
+        (Some(_), Some(g)) => g == want,
+        (Some(_), None) => false,
+    };
+    if !ok {
+        c.fail(
+            if got_i.map(|g| g < 0).unwrap_or(false) { "C28/root-count-negative" } else { "C28/root-count-wrong" },
+            format!("{ctx}: root /Count = {got:?}, Table 152 gives {want} visible items"),
+        );
+    }
+    vx::hmix(oh, ok as u64)
+}
+
+/// Compare one written destination with the authored one. Returns the violation (key, detail).
+fn check_dest_value(file: &PdfFile, page_objs: &[u32], got: &Obj, want: &DestSpec) -> Result<(), (String, String)> {
+    let mut v = file.resolve(got);
+    // a destination may be wrapped in a dictionary with /D (§12.3.2.3)
+    if let Some(d) = v.as_dict() {
+        match d.get("D") {
+            Some(x) => v = file.resolve(x),
+            None => return Err(("C28/dest-dictionary-without-D".into(), format!("{v:?}"))),
+        }
+    }
+    let Some(arr) = v.as_array() else {
+        return Err(("C28/dest-not-an-array".into(), format!("{v:?}")));
+    };
+    let (kind, args) = want.expected_tail();
+    let render = || format!("written {arr:?}, authored page {} (object {}) /{kind} {args:?}", want.page, page_objs[want.page]);
+    if arr.is_empty() {
+        return Err(("C28/dest-array-empty".into(), render()));
+    }
+    let mut page_problem = None;
+    match &arr[0] {
+        Obj::Ref(n, 0) if *n == page_objs[want.page] => {}
+        Obj::Ref(n, _) => {
+            let which = page_objs.iter().position(|p| p == n);
+            page_problem = Some((
+                if which.is_some() { "C28/dest-points-at-another-page" } else { "C28/dest-reference-is-not-a-page" }.to_string(),
+                render(),
+            ));
+        }
+        // known defect KF-C28-3: the zero-based page *index* of PageDestination::PageNumber is
+        // written where Table 151 requires an indirect reference to the page object
+        Obj::Int(k) if !want.by_ref && *k == want.page as i64 => {
+            page_problem = Some(("C28/dest-page-written-as-integer-index-not-page-reference".to_string(), render()));
+        }
+        _ => page_problem = Some(("C28/dest-page-element-wrong".to_string(), render())),
+    }
+    // kind and arguments
+    if arr.len() < 2 || arr[1].as_name() != Some(kind.as_bytes()) {
+        return Err(("C28/dest-kind-wrong".into(), render()));
+    }
+    if arr.len() != 2 + args.len() {
+        return Err(("C28/dest-argument-count-wrong".into(), render()));
+    }
+    for (a, w) in arr[2..].iter().zip(args.iter()) {
+        let ok = match (a, w) {
+            (Obj::Null, None) => true,
+            (x, Some(w)) => x.as_num().map(|g| (g - w).abs() < 1e-6).unwrap_or(false),
+            _ => false,
+        };
+        if !ok {
+            return Err(("C28/dest-argument-wrong".into(), render()));
+        }
+    }
+    match page_problem {
+        Some(p) => Err(p),
+        None => Ok(()),
+    }
+}
+
+fn check_dests(c: &mut Ctx, f: &Forest, rb: &ReadBack, file: &PdfFile, ctx: &str) -> u64 {
+    let mut oh = 0u64;
+    for (i, n) in f.nodes.iter().enumerate() {
+        let o = file.get(rb.item_obj[i]);
+        let d = o.as_dict().unwrap();
+        let got: Option<Obj> = match (d.get("Dest"), d.get("A")) {
+            (Some(x), _) => Some(x.clone()),
+            (None, Some(a)) => {
+                let a = file.resolve(a);
+                if a.dict_get("S").and_then(|s| s.as_name()) == Some(b"GoTo") {
+                    a.dict_get("D").cloned()
+                } else {
+                    None
+                }
+            }
+            _ => None,
+        };
+        let r = match (&got, &n.dest) {
+            (None, None) => Ok(()),
+            (Some(g), None) => Err(("C28/dest-on-item-authored-without-one".to_string(), format!("{g:?}"))),
+            (None, Some(_)) => Err(("C28/dest-missing".to_string(), String::new())),
+            (Some(g), Some(w)) => {
+                // a named destination (name or string) is looked up first
+                match file.resolve(g) {
+                    Obj::Str(s) | Obj::Name(s) => match lookup_named(file, &s) {
+                        Ok(Some(v)) => check_dest_value(file, &rb.page_objs, &v, w),
+                        Ok(None) => Err(("C28/dest-name-unresolvable".to_string(), vx::show_bytes(&s, 40))),
+                        Err(e) => Err(("C28/name-tree-unreadable".to_string(), e)),
+                    },
+                    _ => check_dest_value(file, &rb.page_objs, g, w),
+                }
+            }
+        };
+        oh = vx::hmix(oh, vx::h64(&(i, r.as_ref().err().map(|e| e.0.clone()))));
+        if let Err((key, detail)) = r {
+            c.fail(key, format!("{ctx}: item {i}: {detail}"));
+        }
+    }
+    oh
+}
+
+// ------------------------------------------------------------------ named destinations
+
+/// All (key, value) pairs of a name tree in file order, with the structural rules a reader's
+/// binary search depends on (§7.9.6): keys ascending, every key within its node's /Limits.
+fn name_tree_pairs(file: &PdfFile, node: &Obj, depth: usize, out: &mut Vec<(Vec<u8>, Obj)>, problems: &mut Vec<String>) -> Result<(), String> {
+    if depth > 32 {
+        return Err("name tree deeper than 32".into());
+    }
+    let n = file.resolve(node);
+    let Some(d) = n.as_dict() else { return Err(format!("name tree node is {}", n.type_name())) };
+    let start = out.len();
+    if let Some(names) = d.get("Names") {
+        let a = file.resolve(names);
+        let a = a.as_array().ok_or("/Names is not an array")?;
+        if a.len() % 2 != 0 {
+            return Err("/Names has odd length".into());
+        }
+        for p in a.chunks(2) {
+            match file.resolve(&p[0]) {
+                Obj::Str(k) => out.push((k, p[1].clone())),
+                other => return Err(format!("name tree key is {}", other.type_name())),
+            }
+        }
+    }
+    if let Some(kids) = d.get("Kids") {
+        let a = file.resolve(kids);
+        for k in a.as_array().ok_or("/Kids is not an array")? {
+            name_tree_pairs(file, k, depth + 1, out, problems)?;
+        }
+    }
+    if let Some(l) = d.get("Limits") {
+        let l = file.resolve(l);
+        let l = l.as_array().ok_or("/Limits is not an array")?;
+        if l.len() != 2 {
+            return Err("/Limits does not have 2 elements".into());
+        }
+        let lo = file.resolve(&l[0]);
+        let hi = file.resolve(&l[1]);
+        let (Some(lo), Some(hi)) = (lo.as_str_bytes(), hi.as_str_bytes()) else { return Err("/Limits elements are not strings".into()) };
+        for (k, _) in &out[start..] {
+            if k.as_slice() < lo || k.as_slice() > hi {
+                problems.push(format!("key {:?} outside /Limits [{:?} {:?}]", vx::show_bytes(k, 24), vx::show_bytes(lo, 24), vx::show_bytes(hi, 24)));
+            }
+        }
+        if out.len() > start && (out[start].0.as_slice() != lo || out[out.len() - 1].0.as_slice() != hi) {
+            problems.push("/Limits are not the least and greatest key of the node".into());
+        }
+    }
+    Ok(())
+}
+
+/// Named destinations of the document: name tree under /Names /Dests and the PDF 1.1 /Dests
+/// dictionary of the catalog.
+fn named_dests(file: &PdfFile) -> Result<(Vec<(Vec<u8>, Obj)>, Vec<String>), String> {
+    let cat = file.catalog()?;
+    let mut out = Vec::new();
+    let mut problems = Vec::new();
+    if let Some(names) = cat.dict_get("Names") {
+        let names = file.resolve(names);
+        if let Some(d) = names.dict_get("Dests") {
+            name_tree_pairs(file, d, 0, &mut out, &mut problems)?;
+            for w in out.windows(2) {
+                if w[0].0 >= w[1].0 {
+                    problems.push(format!("keys not strictly ascending: {:?} then {:?}", vx::show_bytes(&w[0].0, 24), vx::show_bytes(&w[1].0, 24)));
+                }
+            }
+        }
+    }
+    if let Some(d) = cat.dict_get("Dests") {
+        let d = file.resolve(d);
+        if let Some(d) = d.as_dict() {
+            for (k, v) in d.iter() {
+                out.push((k.clone(), v.clone()));
+            }
+        }
+    }
+    Ok((out, problems))
+}
+
+fn lookup_named(file: &PdfFile, name: &[u8]) -> Result<Option<Obj>, String> {
+    let (pairs, _) = named_dests(file)?;
+    Ok(pairs.into_iter().find(|(k, _)| k == name).map(|(_, v)| v))
+}
+
+/// Accepted byte forms of an authored name: name-tree keys are byte strings without a
+/// prescribed encoding in ISO 32000-1, so for a non-ASCII name both its UTF-8 bytes and its
+/// text-string encoding are accepted.
+fn name_forms(name: &str) -> Vec<Vec<u8>> {
+    let mut v = vec![name.as_bytes().to_vec()];
+    let t = refpdf::textstr::encode_text_string(name);
+    if !v.contains(&t) {
+        v.push(t);
+    }
+    v
+}
+
+fn check_named(c: &mut Ctx, file: &PdfFile, page_objs: &[u32], authored: &[(String, DestSpec)], ctx: &str) -> u64 {
+    let (pairs, problems) = match named_dests(file) {
+        Ok(x) => x,
+        Err(e) => {
+            c.fail("C28/name-tree-unreadable", format!("{ctx}: {e}"));
+            return 0;
+        }
+    };
+    for p in &problems {
+        c.fail("C28/name-tree-order-or-limits-wrong", format!("{ctx}: {p}"));
+    }
+    let mut oh = 0u64;
+    let mut matched = vec![false; pairs.len()];
+    for (name, want) in authored {
+        let forms = name_forms(name);
+        let hit = pairs.iter().position(|(k, _)| forms.contains(k));
+        let r = match hit {
+            None => Err(("C28/named-destination-missing".to_string(), format!("written keys: {:?}", pairs.iter().map(|(k, _)| vx::show_bytes(k, 24)).collect::<Vec<_>>()))),
+            Some(k) => {
+                matched[k] = true;
+                check_dest_value(file, page_objs, &pairs[k].1, want)
+            }
+        };
+        oh = vx::hmix(oh, vx::h64(&(name, r.as_ref().err().map(|e| e.0.clone()))));
+        if let Err((key, detail)) = r {
+            c.fail(key, format!("{ctx}: name {name:?}: {detail}"));
+        }
+    }
+    if matched.iter().any(|m| !m) {
+        c.fail("C28/named-destination-not-authored", format!("{ctx}: written keys {:?}", pairs.iter().map(|(k, _)| vx::show_bytes(k, 24)).collect::<Vec<_>>()));
+    }
+    oh
+}
+
+// ------------------------------------------------------------------ one case
+
+struct Case<'a> {
+    forest: &'a Forest,
+    builder_route: bool,
+    named: &'a [(String, DestSpec)],
+    named_present: bool,
+    cfg: Option<usize>,
+}
+
+fn run_case(c: &mut Ctx, case: &Case) {
+    let f = case.forest;
+    let ids = first_pass_page_ids();
+    let mut ctx = format!("forest {}", f.describe());
+    if case.builder_route {
+        ctx.push_str(" via OutlineBuilder");
+    }
+    if let Some(i) = case.cfg {
+        ctx.push_str(&format!(" [{}]", config_name(i)));
+    }
+    let tree = if case.builder_route { build_with_builder(f, ids) } else { build_direct(f, ids) };
+    let named = if case.named_present {
+        let mut nd = NamedDestinations::new();
+        for (name, d) in case.named {
+            nd.add_destination(name.clone(), d.to_lib(ids).to_array());
+        }
+        Some(nd)
+    } else {
+        None
+    };
+    let bytes = match write_doc(Some(tree), named, case.cfg) {
+        Ok(b) => b,
+        Err(e) => {
+            let key = if e.starts_with("panic") { format!("C28/write-panics@{}", vx::panic_site(&e)) } else { "C28/write-fails".to_string() };
+            c.fail(key, format!("{ctx}: {e}"));
+            return;
+        }
+    };
+    let file = match PdfFile::parse(&bytes) {
+        Ok(f) => f,
+        Err(e) => {
+            c.fail("C28/written-file-unreadable-by-reference-reader", format!("{ctx}: {e}"));
+            return;
+        }
+    };
+    let mut oh = 0u64;
+    if let Some(rb) = read_back(c, f, &file, &ctx) {
+        if &rb.page_objs != ids && f.nodes.iter().any(|n| n.dest.map(|d| d.by_ref).unwrap_or(false)) {
+            // the two-pass authoring assumption of this check, not a library property
+            c.fail("C28/CHECK-ASSUMPTION-page-object-numbers-changed-between-passes", format!("{ctx}: {ids:?} then {:?}", rb.page_objs));
+        }
+        for (i, d) in rb.title_defect.iter().enumerate() {
+            if let Some(key) = d {
+                c.fail(*key, format!("{ctx}: item {i} title {:?} is written as its UTF-8 bytes without byte-order mark; a reader decodes it as {:?}",
+                    f.nodes[i].title,
+                    refpdf::textstr::decode_text_string(f.nodes[i].title.as_bytes())));
+            }
+        }
+        oh = vx::hmix(oh, check_links(c, f, &rb, &ctx));
+        oh = vx::hmix(oh, check_counts(c, f, &rb, &file, &ctx));
+        oh = vx::hmix(oh, check_dests(c, f, &rb, &file, &ctx));
+        oh = vx::hmix(oh, vx::h64(&rb.links));
+        if case.named_present {
+            oh = vx::hmix(oh, check_named(c, &file, &rb.page_objs, case.named, &ctx));
+        }
+    } else if case.named_present && !c.failed() {
+        // empty forest: still check the names
+        if let Ok(pages) = file.pages() {
+            let po: Vec<u32> = pages.iter().filter_map(|p| p.obj).collect();
+            if po.len() == NPAGES {
+                oh = vx::hmix(oh, check_named(c, &file, &po, case.named, &ctx));
+            }
+        }
+    }
+    c.outcome(oh);
+    if c.want_sample() {
+        c.sample(json!({
+            "forest (pre-order index, '-' = closed)": f.describe(),
+            "titles": f.nodes.iter().map(|n| n.title.clone()).collect::<Vec<_>>(),
+            "dests": f.nodes.iter().map(|n| n.dest.map(|d| format!("{d:?}"))).collect::<Vec<_>>(),
+            "route": if case.builder_route { "OutlineBuilder" } else { "OutlineItem::add_child" },
+            "named": if case.named_present { json!(case.named.iter().map(|(n, d)| format!("{n:?} -> {d:?}")).collect::<Vec<_>>()) } else { json!(null) },
+            "config": case.cfg.map(config_name),
+            "file_len": bytes.len(),
+        }));
+    }
+}
+
+/// Choose a forest shape with at most `max_n` items: the depth of each item in pre-order.
+fn choose_shape(c: &mut Ctx, max_n: usize) -> Vec<usize> {
+    let n = c.choose("n_items", max_n + 1);
+    let mut depths = Vec::with_capacity(n);
+    for i in 0..n {
+        let d = if i == 0 { 0 } else { c.choose("depth", depths[i - 1] + 2) };
+        depths.push(d);
+    }
+    depths
+}
+
+pub fn run(rep: &mut Report) {
+    let thorough = rep.tier.is_thorough();
+    rep.rule("case = (forest shape as pre-order depth sequence, open/closed flag per item, destination scheme or per-item \
+              destination, title scheme, authoring route, named-destination set, writer configuration); every case is \
+              written by the library and re-read by refpdf; non-trivial = the forest has at least 2 items (a link \
+              between items exists) or at least one named destination; distinct = distinct case hash");
+    rep.assume("refpdf::file::PdfFile (xref, object streams, page tree) and refpdf::textstr decode the written bytes correctly");
+    rep.assume("outline item objects are recognised as the dictionaries having /Title and /Parent, matched to authored items by \
+                unique titles (decoded as text strings, or byte-equal to the title's UTF-8 for the known raw-UTF-8 defect)");
+    rep.assume("PageDestination::PageRef is exercised by two-pass authoring: page object numbers are learned from an \
+                outline-less first pass; the check flags its own assumption if the numbers move");
+    rep.assume("root /Count omitted is accepted only when no item with children is open (Table 152); a leaf may carry no /Count or 0");
+    rep.assume("name-tree keys of a non-ASCII name are accepted as UTF-8 bytes or as a text string (ISO 32000-1 does not prescribe an encoding)");
+    let _ = first_pass_page_ids();
+
+    // ---- forest
+    let max_n = if thorough { 7 } else { 5 };
+    rep.note("forest_bound", json!({"max_items": max_n, "design_bound": 6}));
+    rep.explore("forest", Explore::full(), |c: &mut Ctx| {
+        let depths = choose_shape(c, max_n);
+        let mut f = Forest::from_depths(&depths);
+        for i in 0..f.nodes.len() {
+            f.nodes[i].open = !c.flag("closed");
+        }
+        let ds = c.choose("dest_scheme", 4);
+        let ts = c.choose("title_scheme", 2);
+        let route = c.flag("builder_route");
+        let named_present = c.flag("named_set");
+        for i in 0..f.nodes.len() {
+            f.nodes[i].title = title_for(ts, i);
+            f.nodes[i].dest = dest_for(ds, i);
+        }
+        let named = vec![
+            ("intro".to_string(), DestSpec { page: 0, by_ref: false, fit: Fit::Fit }),
+            ("end(1)".to_string(), DestSpec { page: NPAGES - 1, by_ref: true, fit: Fit::FitH(Some(1600)) }),
+        ];
+        c.input(vx::h64(&(&depths, f.nodes.iter().map(|n| n.open).collect::<Vec<_>>(), ds, ts, route, named_present)));
+        if f.nodes.len() >= 2 {
+            c.nontrivial();
+        }
+        run_case(c, &Case { forest: &f, builder_route: route, named: &named, named_present, cfg: None });
+    });
+
+    // ---- dests
+    rep.explore("dests", Explore::full(), |c: &mut Ctx| {
+        let depths = choose_shape(c, 2);
+        let mut f = Forest::from_depths(&depths);
+        for i in 0..f.nodes.len() {
+            let has = !c.flag("no_dest");
+            f.nodes[i].dest = if has {
+                let page = c.choose("page", NPAGES);
+                let by_ref = c.flag("by_ref");
+                let fit = *c.pick_from("fit", &FIT_MENU);
+                Some(DestSpec { page, by_ref, fit })
+            } else {
+                None
+            };
+            f.nodes[i].title = title_for(0, i);
+        }
+        c.input(vx::h64(&(&depths, f.nodes.iter().map(|n| n.dest).collect::<Vec<_>>())));
+        if f.nodes.iter().any(|n| n.dest.is_some()) {
+            c.nontrivial();
+        }
+        run_case(c, &Case { forest: &f, builder_route: false, named: &[], named_present: false, cfg: None });
+    });
+
+    // ---- names
+    let max_names = if thorough { 3 } else { 2 };
+    let name_fits = [Fit::Fit, Fit::Xyz(Some(20), Some(1401), None), Fit::FitR(20, 40, 400, 600)];
+    rep.explore("names", Explore::full(), |c: &mut Ctx| {
+        let k = c.choose("n_names", max_names + 1);
+        let mut avail: Vec<&str> = NAME_MENU.to_vec();
+        let mut named: Vec<(String, DestSpec)> = Vec::new();
+        for _ in 0..k {
+            let i = c.choose("name", avail.len());
+            let name = avail.remove(i);
+            let page = c.choose("page", NPAGES);
+            let by_ref = c.flag("by_ref");
+            let fit = *c.pick_from("fit", &name_fits);
+            named.push((name.to_string(), DestSpec { page, by_ref, fit }));
+        }
+        let with_outline = c.flag("with_outline");
+        let f = if with_outline {
+            let mut f = Forest::from_depths(&[0, 1]);
+            for i in 0..2 {
+                f.nodes[i].title = title_for(0, i);
+                f.nodes[i].dest = dest_for(2, i);
+            }
+            f
+        } else {
+            Forest::from_depths(&[])
+        };
+        c.input(vx::h64(&(&named, with_outline)));
+        if k > 0 {
+            c.nontrivial();
+        }
+        run_case(c, &Case { forest: &f, builder_route: false, named: &named, named_present: true, cfg: None });
+    });
+
+    // ---- configs
+    rep.explore("configs", Explore::full(), |c: &mut Ctx| {
+        let depths = choose_shape(c, 4);
+        let mut f = Forest::from_depths(&depths);
+        for i in 0..f.nodes.len() {
+            f.nodes[i].open = !c.flag("closed");
+            f.nodes[i].title = title_for(1, i);
+            f.nodes[i].dest = dest_for(1, i);
+        }
+        let cfg = c.choose("config", 8);
+        let named = vec![("k".to_string(), DestSpec { page: 1, by_ref: false, fit: Fit::FitB })];
+        c.input(vx::h64(&(&depths, f.nodes.iter().map(|n| n.open).collect::<Vec<_>>(), cfg)));
+        if f.nodes.len() >= 2 {
+            c.nontrivial();
+        }
+        run_case(c, &Case { forest: &f, builder_route: false, named: &named, named_present: true, cfg: Some(cfg) });
+    });
+}
